@@ -40,10 +40,26 @@ def make_service(log, held, name):
     other = I.DBusInterface('org.ex.Other', I.Method('Echo', 's', 's'),
                             noRegister=True)
 
-    class Svc(O.DBusObject):
+    # two levels: the base class implements Echo of both interfaces through
+    # decorated methods; the exported class adds a decorated member to one
+    # of those interfaces and the conventionally named ones
+    class SvcBase(O.DBusObject):
         dbusInterfaces = [other, iface]
 
-        def dbus_Add(self, a, b):
+        @O.dbusMethod('org.ex.Svc', 'Echo')
+        def echo_svc(self, s):
+            log.append((name, 'Echo', s))
+            return name + ':' + s
+
+        @O.dbusMethod('org.ex.Other', 'Echo')
+        def echo_other(self, s):
+            log.append((name, 'Other.Echo', s))
+            return 'other:' + s
+
+    class Svc(SvcBase):
+
+        @O.dbusMethod('org.ex.Svc', 'Add')
+        def add_impl(self, a, b):
             log.append((name, 'Add', a, b))
             return a + b
 
@@ -80,15 +96,6 @@ def make_service(log, held, name):
             log.append((name, 'Who', dbusCaller))
             return '%s@%s' % (dbusCaller, name)
 
-        @O.dbusMethod('org.ex.Svc', 'Echo')
-        def echo_svc(self, s):
-            log.append((name, 'Echo', s))
-            return name + ':' + s
-
-        @O.dbusMethod('org.ex.Other', 'Echo')
-        def echo_other(self, s):
-            log.append((name, 'Other.Echo', s))
-            return 'other:' + s
     return Svc, iface, other
 
 
